@@ -28,6 +28,7 @@ class SortReg:
         self.opt_sort = {}     # key -> (sort, none, some, val)
         self.field_types = {}  # ClassV -> [(fname, TypeDesc)]
         self.opaque = {}
+        self.rec_sort = {}
         self.opaque_classes = set()   # qualnames of dataclasses deliberately kept abstract (an uninterpreted sort)
 
     # ---- annotations -------------------------------------------------------------------------
@@ -123,6 +124,8 @@ class SortReg:
             return self.sort_of_class(td.args[0])
         if k == 'opt':
             return self.sort_of_opt(td.args[0])[0]
+        if k == 'rec':
+            return self.sort_of_rec(td.args[0])
         return self.opaque_sort('Any')
 
     def opaque_sort(self, name):
@@ -152,6 +155,21 @@ class SortReg:
             d = d.create()
             self.opt_sort[key] = (d, d.none, d.some, d.val)
         return self.opt_sort[key]
+
+    def sort_of_rec(self, schema):
+        if schema not in self.rec_sort:
+            d = z3.Datatype('J_' + schema.name)
+            flds = []
+            for (key, td) in schema.fields:
+                t = TypeDesc('opt', td) if key in schema.optional else td
+                flds.append((f'J_{schema.name}.{key}', self.sort_of(t)))
+            d.declare('mk_J_' + schema.name, *flds)
+            self.rec_sort[schema] = d.create()
+        return self.rec_sort[schema]
+
+    def rec_accessor(self, schema, key):
+        s = self.sort_of_rec(schema)
+        return s.accessor(0, [k for (k, _) in schema.fields].index(key))
 
     def sort_of_class(self, cls: ClassV):
         if cls in self.cls_sort:
